@@ -1055,7 +1055,7 @@ var c06Controls = []Control{
 	{Name: "stmtsseq-yields-after-stop", Rule: "R06j", WantKey: "StmtsSeq#iterator literal", File: "syntax/parser.go",
 		Mutate: ctlReplaceAnywhere("\t\tif stopped {\n\t\t\treturn // yield must not be called again\n\t\t}\n", "")},
 	{Name: "interactiveseq-ignores-reader-stop", Rule: "R06j", WantKey: "InteractiveSeq#iterator literal", File: "syntax/parser.go",
-		Mutate: ctlReplaceAnywhere("\t\t\tif w.stopped {\n\t\t\t\tbreak\n\t\t\t}\n", "")},
+		Mutate: ctlReplaceAnywhere("\t\t\tif w.stopped {\n\t\t\t\treturn\n\t\t\t}\n", "")},
 	{Name: "caseitem-pos-unguarded", Rule: "R06i", WantKey: "CaseItem).Pos#c.Patterns", File: "syntax/nodes.go",
 		Mutate: ctlReplaceAnywhere("\tif len(c.Patterns) == 0 {\n\t\t// Only possible when [RecoverErrors] stood in for missing patterns.\n\t\treturn recoveredPos\n\t}\n", "")},
 	{Name: "rune-loop-without-eof-test", Rule: "R06h", WantKey: "zshSubFlags#for loop 2", File: "syntax/parser.go",
